@@ -1,6 +1,7 @@
 // C16 — discrete transfer function (exact integer reference, linearity, time invariance, zero),
 // first-order low/high-pass filters and their coefficient generators.
 #include "../drv/vp.h"
+#include <memory>
 #include <cmath>
 #include <vector>
 extern "C" {
@@ -80,16 +81,25 @@ struct Ref
 struct TF
 {
     Blk num, den, input, output;
+    std::unique_ptr<RoBlock> ro_num, ro_den;
     a_tf ctx;
-    TF(std::vector<int> const &b, std::vector<int> const &a, bool member = false) : num(b.size()), den(a.size()), input(b.size()), output(a.size())
+    TF(std::vector<int> const &b, std::vector<int> const &a, bool member = false, bool ro = false) : num(b.size()), den(a.size()), input(b.size()), output(a.size())
     {
         for (size_t i = 0; i < b.size(); ++i) { num.p[i] = b[i]; }
         for (size_t i = 0; i < a.size(); ++i) { den.p[i] = a[i]; }
         // the history blocks arrive dirty: init has to clear them
         for (size_t i = 0; i < b.size(); ++i) { input.p[i] = 7.5; }
         for (size_t i = 0; i < a.size(); ++i) { output.p[i] = -3.25; }
-        if (member) { ctx.init(unsigned(b.size()), num.p, input.p, unsigned(a.size()), den.p, output.p); }
-        else { a_tf_init(&ctx, unsigned(b.size()), num.p, input.p, unsigned(a.size()), den.p, output.p); }
+        // the coefficient vectors are const inputs of the filter: on request they are read from read-only memory
+        R const *np = num.p, *dp = den.p;
+        if (ro)
+        {
+            ro_num.reset(new RoBlock(num.p, sizeof(R) * b.size(), sizeof(R)));
+            ro_den.reset(new RoBlock(den.p, sizeof(R) * a.size(), sizeof(R)));
+            if (ro_num->p && ro_den->p) { np = (R const *)ro_num->p; dp = (R const *)ro_den->p; }
+        }
+        if (member) { ctx.init(unsigned(b.size()), np, input.p, unsigned(a.size()), dp, output.p); }
+        else { a_tf_init(&ctx, unsigned(b.size()), np, input.p, unsigned(a.size()), dp, output.p); }
     }
 };
 
@@ -121,7 +131,7 @@ static void case_tf(Tape &t, Ctx &cx)
         for (unsigned i = 2; i < len; ++i) { if (x1[i] != x1[i - 1] && x1[i - 1] != x1[i - 2] && x1[i] != x1[i - 2]) { distinct3 = 1; } }
         if (nn >= 2 && dn >= 2 && distinct3) { cx.rep->nontrivial = true; }
     }
-    TF f(b, a);
+    TF f(b, a, false, true);
     TF fm(b, a, true); // configured and driven through the C++ member functions of a_tf
     Ref r;
     r.b = b;
